@@ -279,6 +279,34 @@ def props_axioms(prop_id):
     return rc == 0, res, out
 
 
+def import_closure(prop_id):
+    """the Cirbo.* modules the Props file of a property depends on (itself first)"""
+    import re
+    seen, todo = [], ['Cirbo.Props.' + prop_id]
+    while todo:
+        m = todo.pop()
+        if m in seen:
+            continue
+        seen.append(m)
+        path = os.path.join(LEAN_DIR, *m.split('.')) + '.lean'
+        try:
+            with open(path) as f:
+                src = f.read()
+        except OSError:
+            continue
+        for imp in re.findall(r'^import (Cirbo\.[A-Za-z0-9_.]+)', src, flags=re.M):
+            todo.append(imp)
+    return seen
+
+
+def leanchecker(prop_id):
+    """independent re-check (the toolchain's `leanchecker`) of the compiled Props module of a property and of
+    every Cirbo module it imports.  Returns (ok, number_of_modules, output)."""
+    mods = import_closure(prop_id)
+    rc, out = run(['lake', 'env', 'leanchecker'] + mods, cwd=LEAN_DIR, timeout=7200)
+    return rc == 0, len(mods), out
+
+
 # --------------------------------------------------------------------------------------
 # findings / replays / evidence
 
